@@ -42,7 +42,7 @@ def exec_defined_names(mod: Module) -> set[str]:
 
 def shipped_modules(repo: Repo) -> list[tuple[FuncInfo, ast.Call, Module]]:
     out = []
-    for fi in repo.funcs.values():
+    for fi in repo.scan_funcs():
         for c in repo.calls_in(fi):
             if callee_attr(c) == "remote_exec" and c.args:
                 a = c.args[0]
@@ -345,6 +345,6 @@ def check(ctx: Ctx) -> None:
                     if not ok:
                         ob.violation(fb, c, "bootstrap_import (which needs execnet importable remotely) is reachable for specs with python=/via= or non-popen transports")
         ob.require(n_imp == 1, "bootstrap_import call not found in bootstrap()")
-        callers = [f.short for f, _c in repo.callsites("gateway_bootstrap.bootstrap_import")]
+        callers = [f.short for f, _c in repo.callsites_flat("gateway_bootstrap.bootstrap_import")]
         if callers != ["bootstrap"]:
             ob.violation(fb, fb.node, f"bootstrap_import has other callers: {callers}", construct=f"callers {callers}")
